@@ -3,6 +3,7 @@
 normalized locations against the source rule semantics (voracle c16, harness/src/eval/rules.rs)."""
 import json
 import os
+import re
 import shutil
 import subprocess
 
@@ -21,6 +22,8 @@ def run(chk, bins, tier):
         wd = os.path.join(chk.scratch, f"r{i}")
         r, out, cmd = compile_font(bins["fontc"], src, wd, args=("--no-production-names",), threads=2, timeout=600)
         res = {"source": src, "rc": r.rc, "timed_out": r.timed_out, "cmd": cmd, "wd": wd, "font": out, "stderr": r.stderr[-200:]}
+        site = re.search(r"panicked at (?:/repo/)?([\w./-]+:\d+)", r.stderr or "")
+        res["panic_site"] = site.group(1) if site else None
         if r.rc == 0 and os.path.exists(out):
             man = os.path.join(os.path.dirname(src), "manifest.json")
             p = subprocess.run([bins["voracle"], "c16", man, out], capture_output=True, text=True, timeout=600)
@@ -33,6 +36,10 @@ def run(chk, bins, tier):
         rel = os.path.basename(os.path.dirname(res["source"]))
         if res["timed_out"]:
             chk.inconc({"source": rel, "why": "watchdog"})
+        elif res["rc"] != 0 and res["panic_site"]:
+            # a generated rule list is valid input: a compile that dies of a panic has no font to apply the rules
+            chk.violation(f"e2e:compile-failed:{res['panic_site']}", f"{rel}: a valid rule list ends in a panic at {res['panic_site']}",
+                          replay={"source": res["source"], "cmd": res["cmd"]}, files=[os.path.dirname(res["source"])])
         elif res["rc"] != 0:
             chk.inconc({"source": rel, "why": f"rc {res['rc']}", "stderr": res["stderr"]})
         elif "oracle" not in res or res["oracle"].get("oracle_panicked"):
